@@ -102,7 +102,7 @@ def scenarios(prop, tier, seed=0):
     elif prop == 'C06':
         for P in (1, 0):
             ths = [T('A', ('future_desync', 0, {'fut': ('gate', 0), 'as': 'f'}), ('block_on', 'f')), T('W', ('open_gate', 0))]
-            L.append(S('c06_p%d_poll_drain' % P, ths, pool_max=P, R=3, B=16, oracles=BASE + ('deadlock', 'fut_results')))
+            L.append(S('c06_p%d_poll_drain' % P, ths, pool_max=P, R=(3 if (P == 0 or not q) else 2), B=18, oracles=BASE + ('deadlock', 'fut_results')))
         L.append(S('c06_p1_pool_runner', [T('A', ('future_desync', 0, {'fut': ('gate', 0), 'as': 'f'}), ('detach', 'f'), ('desync', 0)), T('W', ('open_gate', 0))],
                    pool_max=1, R=3, B=16, oracles=BASE + ('deadlock', 'quiescent_complete')))
         L.append(S('c06_p0_sync_runner', [T('A', ('future_desync', 0, {'fut': ('gate', 0), 'as': 'f'}), ('detach', 'f'), ('sync', 0)), T('W', ('open_gate', 0))],
@@ -132,7 +132,7 @@ def scenarios(prop, tier, seed=0):
         MEM = BASE + ('memory', 'drop_waits', 'deadlock')
         L.append(S('c05_p1_desync_drop', [T('A', ('d_new', 'd'), ('d_desync', 'd'), ('d_drop', 'd'))], pool_max=1, queues=0, R=3, B=16, oracles=MEM))
         L.append(S('c05_p1_fut_drop', [T('A', ('d_new', 'd'), ('d_future_desync', 'd', {'fut': ('gate', 0), 'as': 'f'}), ('detach', 'f'), ('d_drop', 'd')), T('W', ('open_gate', 0))],
-                   pool_max=1, queues=0, R=3, B=16, oracles=MEM))
+                   pool_max=1, queues=0, R=(2 if q else 3), B=18, oracles=MEM))
         L.append(S('c05_p1_drop_elsewhere', [T('A', ('d_new', 'd'), ('d_desync', 'd'), ('d_give', 'd', 0)), T('B', ('d_take', 0, 'd'), ('d_drop', 'd'))],
                    pool_max=1, queues=0, R=3, B=16, oracles=MEM))
         if not q:
